@@ -228,13 +228,18 @@ def _self_check(col, rule="C03.R6"):
         return False
 
     n = 0
-    for r in raises:
-        for c in sx.conds(r.nid):
+    seen_cmp = set()
+    # every equality test of the function (the raise may be reached through a flag or a "first mismatch" value set under the test)
+    tests = [(nd.id, sx.sym.of(nd.ast, nd.id)) for nd in sx.cfg.nodes.values() if nd.kind == "test" and nd.ast is not None]
+    for r in raises[:1]:
+        for nid_, c in tests:
             for t in S.subterms(c):
-                if t[:1] == ("cmp",) and t[1] in ("!=", "==") and len(t) == 4:
+                if t[:1] == ("cmp",) and t[1] in ("!=", "==") and len(t) == 4 and t not in seen_cmp \
+                        and not any(x[:1] == ("const",) for x in (t[2], t[3])):
+                    seen_cmp.add(t)
                     n += 1
                     bad = [x for x in (t[2], t[3]) if sequenced(x)]
-                    col.add(rule, f"Manager.verify#order-insensitive-comparison:{n}", not bad, sx.loc(r),
+                    col.add(rule, f"Manager.verify#order-insensitive-comparison:{n}", not bad, sx.loc(nid_),
                             "the consistency check compares an index entry with its regenerated twin as sets / mappings "
                             "(order of insertion is history, not content)",
                             f"compares {S.show(t, False)[:160]}")
